@@ -1000,8 +1000,8 @@ func (g *gen) request() request {
 			q.CondOp = int64(r.Intn(7))
 			e := intEdges[ty]
 			q.CondV = e[r.Intn(len(e))]
-			if ty == tF32 || ty == tF64 {
-				q.CondV = int64(r.Intn(4))
+			if ty == tF32 || ty == tF64 || r.Bool() {
+				q.CondV = int64(r.Intn(4)) // small values: the boundary "current value == reference" is hit often
 			}
 			q.CondU = uint64(q.CondV)
 		}
@@ -1158,6 +1158,8 @@ func smallAlphabet() []request {
 		{Op: "Delete", Sw: 1, Keys: []int64{1}},
 		{Op: "Inc", Sw: 1, K: 1, Ty: tI64, By: 1, ByU64: 1},
 		{Op: "Inc", Sw: 1, K: 1, Ty: tI64, By: 1, ByU64: 1, Cond: true, CondOp: 3, CondV: 2, CondU: 2},
+		{Op: "Inc", Sw: 1, K: 1, Ty: tI64, By: 1, ByU64: 1, Cond: true, CondOp: 1, CondV: 1, CondU: 1}, // if > 1
+		{Op: "Inc", Sw: 1, K: 1, Ty: tI64, By: -1, ByU64: 1, Cond: true, CondOp: 4, CondV: 2, CondU: 2}, // if <= 2
 		{Op: "Push", Sw: 1, Pairs: []pair{{Key: 1, Vals: []uint32{1}}}},
 		{Op: "SlDel", Sw: 1, Pairs: []pair{{Key: 1, Vals: []uint32{1}}}},
 		{Op: "ShiftByKeys", Sw: 1, Keys: []int64{1}},
@@ -1179,7 +1181,7 @@ func main() {
 
 	nRandom, maxLen, exhLen := 260, 300, 3
 	if args.Tier == "thorough" {
-		nRandom, exhLen = 6000, 4
+		nRandom, exhLen = 2000, 4
 	}
 	watchdog := 5 * time.Second
 
